@@ -678,9 +678,30 @@ def bck_fast_opts(fn, bname):
 # ------------------------------------------------------------------------------------------------
 # evaluation: outputs, first- and second-order gradients with fixed random contractions
 
+def _opts_changed(before, now):
+    if before is None:
+        return None
+    if list(before) != list(now):
+        return "keys %r became %r" % (list(before), list(now))
+    for k, v in before.items():
+        if not (v is now[k] or (not isinstance(v, torch.Tensor) and v == now[k])):
+            return "option %r changed from %r to %r" % (k, v, now[k])
+    return None
+
+
 def evaluate(prob, case, method, fwd, bck, order, wseed):
+    from pbt.harness import XitorchRaised
     torch.manual_seed(case["seed"] % (2 ** 31))
+    fwd0, bck0 = dict(fwd), (None if bck is None else dict(bck))
+
+    def options_intact(when):
+        # the caller's option dictionaries are the caller's: a functional that edits them changes what the *next* call
+        # with the same dictionaries is asked to do (results would depend on the call history)
+        msg = _opts_changed(fwd0, fwd) or _opts_changed(bck0, bck)
+        if msg:
+            raise XitorchRaised("caller_options_mutated", "after the %s the caller's option dictionary was modified: %s" % (when, msg))
     outs = xt_call(prob.run, method, fwd, bck, _where="forward")
+    options_intact("forward call")
     gw = gen.seeded(wseed)
     W = [torch.randn(o.shape, generator=gw, dtype=DT) for o in outs]
     loss = sum((o * w).sum() for o, w in zip(outs, W))
@@ -689,6 +710,7 @@ def evaluate(prob, case, method, fwd, bck, order, wseed):
         return res
     leaves = prob.leaves
     g1 = xt_call(torch.autograd.grad, loss, leaves, create_graph=(order == 2), allow_unused=True, _where="backward")
+    options_intact("backward pass")
     res["g1"] = [None if x is None else x.detach().clone() for x in g1]
     if order == 2:
         C = [torch.randn(x.shape, generator=gw, dtype=DT) for x in leaves]
